@@ -776,3 +776,9 @@ mod test {
         huffman::decode(src, &mut buf).unwrap()
     }
 }
+
+#[cfg(feature = "verif")]
+#[allow(missing_docs, dead_code, unused_imports)]
+pub(crate) mod verif_h {
+    include!(concat!(env!("H2_VERIF_DIR"), "/harness/hpack/encoder.rs"));
+}
